@@ -184,10 +184,12 @@ namespace
       for (size_t i = 0; i < r.tokens.size(); ++i) l += (i ? (c.comma ? ", " : " ") : "") + r.tokens[i];
       return l;
     };
-    const unsigned lay = c.layout % 8;
+    const unsigned lay = c.layout % 9;
     // layouts 6 and 7: the option lines are indented (blanks / a tab in front of the #): lines are split into words, so they are option lines all the same
     if (lay == 6) for (auto &o : opts) o = "   " + o;
     if (lay == 7) for (auto &o : opts) o = "\t" + o;
+    // layout 8: a remark behind the value (only the first four words of an option line count)
+    if (lay == 8) for (auto &o : opts) o += " # and a remark = 9 behind it";
     if (lay == 1) std::reverse(opts.begin(), opts.end());
     if (lay == 2) std::rotate(opts.begin(), opts.begin() + 2, opts.end());
     if (lay == 3)
@@ -420,12 +422,12 @@ namespace
                     if (conv && dim == 2) continue;
                     Config c;
                     c.world = w; c.dim = dim; c.comps = comps; c.gcomps = gc; c.ngrains = (gc == 0 && !thorough) ? 0 : ng; c.convert = conv; c.comma = comma;
-                    c.layout = static_cast<unsigned>(v.size()) % 8;
+                    c.layout = static_cast<unsigned>(v.size()) % 9;
                     v.push_back(c);
                   }
     if (thorough)
       // every arrangement of the option lines for one configuration per dimension
-      for (unsigned dim : {2u, 3u}) for (unsigned lay = 0; lay < 8; ++lay) for (unsigned w : {0u, 1u})
+      for (unsigned dim : {2u, 3u}) for (unsigned lay = 0; lay < 9; ++lay) for (unsigned w : {0u, 1u})
             {
               Config c; c.world = w; c.dim = dim; c.comps = 3; c.gcomps = 2; c.ngrains = 2; c.layout = lay; c.comma = lay % 2;
               v.push_back(c);
@@ -476,6 +478,7 @@ namespace
     s.push_back({"# number of compositions = 2", 'I', "comment that resembles an option"});
     s.push_back({"# grain = 2", 'I', "comment that resembles an option"});
     s.push_back({"# convert spherical = maybe", 'E', "option with an undocumented value"});
+    if (dim == 2) s.push_back({"# convert spherical = true", 'R', "convert spherical is only available in 3-D: a 2-D file asking for it is refused"});
     // malformed rows
     const std::vector<std::string> good = dim == 3 ? std::vector<std::string>{"1e5", "2e5", "9e5", "1e5"} : std::vector<std::string>{"1e5", "9e5", "1e5"};
     auto join = [](const std::vector<std::string> &t) { std::string l; for (size_t i = 0; i < t.size(); ++i) l += (i ? " " : "") + t[i]; return l; };
@@ -580,7 +583,7 @@ int main(int argc, char **argv)
   Spec spec;
   spec.property = "C17";
   spec.level = "exploration";
-  spec.rule = "suite tables: full product of worlds x dim x compositions x grain compositions x grains x convert spherical x separator (with eight arrangements of option / comment / blank lines, two of them with indented option lines "
+  spec.rule = "suite tables: full product of worlds x dim x compositions x grain compositions x grains x convert spherical x separator (with nine arrangements of option / comment / blank lines, two of them with indented option lines, one with remarks behind the values "
               "assigned round-robin, all six for selected configurations in the thorough tier); one run of the real gwb-dat binary per tuple on 240 (3-D) / 54 (2-D) rows; every cell is matched "
               "by header name with the library's value printed through the same ostream formatting. suite lines: every comment / option-prefix / malformed line of the alphabet inserted before "
               "the first row, between rows and after the last row, run in the ASan+UBSan build of the tool with libstdc++ assertions. non-trivial: at least five columns take more than one value over the rows";
